@@ -316,7 +316,11 @@ mutual
       match init with
       | none => .ok { s with env := if isVecType ty then s.env.set n (.vec []) else s.env.declare n }
       | some e => match evalE C.N s.env e with
-        | .ok v => .ok { s with env := s.env.set n v }
+        | .ok v =>
+          -- copy-initialisation converts to the declared type (`double acc (0)` holds 0.0)
+          match castTo C.N ty v with
+          | .ok v' => .ok { s with env := s.env.set n v' }
+          | .error f => .error f
         | .error f => .error f
     | .set x e, s =>
       match s.env x with
